@@ -527,6 +527,10 @@ func (in *Interp) callFn(fn *ssa.Function, args []AVal, bind []AVal) AVal {
 			}
 			if prevSnap := fr.snap[b]; prevSnap != nil && in.ForgetAll {
 				// forget what was learnt inside the loop about loop-variant values
+				if prevSnap.jmark > len(in.journal) {
+					// an inner loop's forgetting pass compacted the journal below this loop's mark
+					prevSnap.jmark = len(in.journal)
+				}
 				kept := in.journal[:prevSnap.jmark:prevSnap.jmark]
 				for i := len(in.journal) - 1; i >= prevSnap.jmark; i-- {
 					je := in.journal[i]
